@@ -259,7 +259,7 @@ def handleC15 (j : Json) : Json :=
     let iu2 := nodeResOfJson (jget after "usage")
     let agree := jstr (jget impl "seterr") == "" && usageSame u1 iu1 && d1.length == jnat (jget fix "diffs") &&
       usageSame n1.usage iu2 && d2.length == jnat (jget after "diffs")
-    let fits := fitsB capacity ws
+    let fits := decide (Fits n0 ws)
     let v1 := if fits && (jnat (jget after "diffs") != 0 || !consistentB iu2 ws) then ["C15:not-consistent"] else []
     let v2 := if fits && d0.isEmpty && !usageEqB iu2 n0.usage then ["C15:noop-changed"] else []
     let v3 := if fits && jnat (jget fix "diffs") != d0.length then ["C15:fix-diffs"] else []
